@@ -5,7 +5,7 @@
    (harness/props/C17.py, request 1705); no general induction over the decoder is claimed here. *)
 From Coq Require Import List ZArith QArith Bool.
 From PV Require Import lib.Sx lib.Str lib.Result model.GenSccw model.SccWrap model.SccWrite model.SccRoundTrip spec.SpecSccw.
-From PV Require Import model.SccDecoder proofs.SccWriteFacts proofs.SccDocFacts.
+From PV Require Import model.SccDecoder proofs.SccWriteFacts proofs.SccDocFacts proofs.SccComposeFacts.
 Import ListNotations.
 Open Scope Z_scope.
 
@@ -52,4 +52,25 @@ Proof.
     rewrite SccWriteFacts.word_stream_shape, Ew in R. cbn [bind] in R.
     destruct (res_map (fun c0 => do code <- text_to_code (w_text c0); Ok (code, w_start c0, w_end c0)) t) as [rest|e2] eqn:R2;
       [discriminate|]. apply (IH (fun x Hx => D x (or_intror Hx)) e2 eq_refl).
+Qed.
+
+(* wave 3: under the statement's hypotheses the writer model does not fail, its document satisfies the WHOLE output
+   oracle (SccComposeFacts.write_meets_oracle), and the lines the reader model is run on are exactly the lines the
+   oracle judged.  What the reader model RETURNS for them is not proved for arbitrary texts (roundtrip tables below,
+   request 1705 on every generated case) - hence `_partial` in props/C17.v *)
+Theorem reread_input_ok : forall caps, Forall SccComposeFacts.cap_dom caps -> SccComposeFacts.caps_spaced 0 caps ->
+  exists doc lines, write caps = Ok doc /\ parse_document doc = Some lines
+                    /\ ok_output (map SccComposeFacts.to_cue caps) doc = 0
+                    /\ reread caps = RRRead (read 0 (map to_sline lines)).
+Proof.
+  intros caps D S.
+  assert (H : forall c, In c caps -> (0 <= w_start c)%Q /\ (0 <= w_end c)%Q /\ (length (layout_rows (w_text c)) <= 15)%nat).
+  { pose proof (SccComposeFacts.caps_spaced_each caps 0 (Qle_refl 0) S) as E. rewrite Forall_forall in E, D.
+    intros c Hc. destruct (E c Hc) as (_ & E2 & E3). destruct (D c Hc) as [_ Dr]. auto. }
+  destruct (reread_reaches_reader caps H) as (lines0 & R0 & _).
+  unfold reread in *. destruct (write caps) as [doc|e] eqn:W; [|discriminate].
+  pose proof (SccComposeFacts.write_meets_oracle caps doc W D S) as O.
+  destruct (parse_document doc) as [lines|] eqn:P.
+  - exists doc, lines. auto.
+  - unfold ok_output in O. rewrite P in O. discriminate.
 Qed.
